@@ -1,12 +1,21 @@
 """C20 - generated servers and runtime helpers are safe under concurrent requests.
-(M) Concurrency.tla: K request processes x handler regions x shared objects, NoConflict / Echo / Termination
-model-checked for every interleaving of gate passes; (G) every schedule TLC emits for K=2 (a sample for K=3)
-is replayed on the real generated server: K goroutines gated at the decoder factory, the stub service and the
-encoder factory, released in the emitted order so that their segments overlap, built with -race;
-(J) the replayed schedules are validated as traces (gates passed in handler order, race reports = 0, echo);
-plus load: 32-64 goroutines of mixed requests on one mounted server, and direct concurrent use of
-ErrorEncoder, ResponseEncoder, muxer, ValidatePattern, samplers."""
-import json, os, re, glob, subprocess
+(M) Concurrency.tla: K request processes x handler regions x shared objects; a request is (kind, content type class,
+body kind); NoConflict / Echo (the payload a handler reads and the reply a client gets are computed from their own
+request only) / Termination model-checked for every interleaving of gate passes and region completions, in the free
+and in the serial replay mode; three named deviations must each yield a counterexample.
+(G) every schedule TLC emits for K=2 (samples of the larger families) is replayed on the real generated server: K
+goroutines gated at the decoder factory, the stub service and the encoder factory, released in the emitted order -
+free (segments overlap, race detector) or serial (one region at a time: request A held after decoding, B served
+from start to finish, A continues).  Requests come from generated clients (JSON) and from raw clients choosing
+Content-Type and Accept per request (json, xml, gob, text/plain, text/html, suffix and parameter forms) for
+methods whose body is an object, a string, a byte string or a list and which answer with their own payload.
+(J) the replayed schedules are validated as traces (gates passed in handler order, race reports = 0, payload seen
+and reply computed from the own request); every exchange is compared with the same exchange served alone;
+plus load: 32-64 goroutines of mixed requests with pairwise distinct payloads of many sizes on one mounted server,
+and direct concurrent use of RequestDecoder/ResponseEncoder/ResponseDecoder/RequestEncoder (whole codec matrix),
+ErrorEncoder, muxer, ValidatePattern, samplers."""
+import base64, json, os, re, glob, random, subprocess
+from xml.sax.saxutils import escape as xesc
 from vlib import core, httpgen as hg
 
 KINDS = ["ok", "invalid", "declared", "undeclared", "plain"]
@@ -14,7 +23,7 @@ REPO_ROOTS = ["/repo"]
 
 
 def design():
-    return {"api": {"name": "conc"}, "services": [{"name": "s1", "errors": [{"name": "e1"}], "methods": [{
+    s1 = {"name": "s1", "errors": [{"name": "e1"}], "methods": [{
         "name": "m1",
         "payload": {"attrs": [
             {"name": "a1", "type": {"kind": "int"}, "required": True, "val": {"min": 2}},
@@ -22,7 +31,31 @@ def design():
             {"name": "a3", "type": {"kind": "string"}, "required": True, "val": {"minLen": 2}}]},
         "result": {"attrs": [{"name": "r1", "type": {"kind": "int"}, "required": True}, {"name": "r2", "type": {"kind": "string"}}]},
         "http": {"routes": [{"verb": "POST", "path": "/m1/{a1}"}], "params": {"a2": "qa2"},
-                 "responses": [{"status": 200, "headers": {"r2": "X-R2"}}], "errors": [{"name": "e1", "status": 409}]}}]}]}
+                 "responses": [{"status": 200, "headers": {"r2": "X-R2"}}], "errors": [{"name": "e1", "status": 409}]}}]}
+
+    # the codec service: methods that answer with their own payload, one per body kind (+ designed content types)
+    def echo(name, t, path, ct=None):
+        resp = {"status": 200}
+        if ct:
+            resp["contentType"] = ct
+        return {"name": name, "payload": {"type": t}, "result": {"type": t}, "http": {"routes": [{"verb": "POST", "path": path}], "responses": [resp]}}
+    obj = {"name": "Obj", "kind": "object", "attrs": [
+        {"name": "s", "type": {"kind": "string"}, "required": True}, {"name": "b", "type": {"kind": "bytes"}},
+        {"name": "n", "type": {"kind": "int"}}, {"name": "l", "type": {"kind": "array", "elem": {"kind": "string"}}}]}
+    strs = {"kind": "array", "elem": {"kind": "string"}}
+    cx = {"name": "cx", "methods": [
+        echo("m1", {"kind": "bytes"}, "/cx/bytes"),
+        echo("m2", {"kind": "string"}, "/cx/string"),
+        echo("m3", {"kind": "user", "ref": "Obj"}, "/cx/object"),
+        echo("m4", strs, "/cx/list"),
+        echo("m5", {"kind": "user", "ref": "Obj"}, "/cx/vjson", ct="application/vnd.verif.obj+json"),
+        echo("m6", {"kind": "user", "ref": "Obj"}, "/cx/vxml", ct="application/vnd.verif.obj+xml"),
+        echo("m7", {"kind": "bytes"}, "/cx/tbytes", ct="text/plain"),
+        # Body("data") naming a Bytes attribute
+        {"name": "m8", "payload": {"attrs": [{"name": "id", "type": {"kind": "string"}, "required": True}, {"name": "data", "type": {"kind": "bytes"}, "required": True}]},
+         "result": {"type": {"kind": "bytes"}},
+         "http": {"routes": [{"verb": "POST", "path": "/cx/attr/{id}"}], "body": "data", "responses": [{"status": 200}]}}]}
+    return {"api": {"name": "conc"}, "types": [obj], "services": [s1, cx]}
 
 
 ACCEPTS = {1: "application/json; q=0.9", 2: "application/xml; q=0.8", 3: "application/gob; q=0.7"}
@@ -46,6 +79,115 @@ def scenarios():
     return out
 
 
+# ---------------------------------------------------------------------------------------------- the codec family
+# concrete content types of a class of the specification: (key, Content-Type header or None, client)
+CT_VARIANTS = {
+    "json": [("json", "application/json", "raw"), ("gen", "application/json", "gen"), ("jsonp", "application/json; charset=utf-8", "raw"), ("none", None, "raw")],
+    "xml": [("xml", "application/xml", "raw"), ("xmlp", "application/xml; charset=utf-8", "raw")],
+    "gob": [("gob", "application/gob", "raw")],
+    "text": [("plain", "text/plain", "raw"), ("html", "text/html; charset=utf-8", "raw"), ("plainp", "text/plain; charset=utf-8", "raw")],
+    "unsup": [("vjson", "application/vnd.verif.obj+json", "raw"), ("vxml", "application/vnd.verif.obj+xml", "raw"), ("form", "application/x-www-form-urlencoded", "raw")],
+}
+CX_METHODS = {"bytes": ["M1", "M7", "M8"], "string": ["M2"], "object": ["M3", "M5", "M6"], "list": ["M4"]}
+CX_PATH = {"M1": "/cx/bytes", "M2": "/cx/string", "M3": "/cx/object", "M4": "/cx/list", "M5": "/cx/vjson", "M6": "/cx/vxml", "M7": "/cx/tbytes", "M8": "/cx/attr/"}
+CX_ACCEPTS = [None, "application/json", "application/xml", "application/gob", "text/plain", "text/html", "application/xml; q=0.8", "application/json; q=0.9", "*/*"]
+# body sizes on both sides of the growth steps of the buffers involved (bytes.Buffer 64 / MinRead 512, io.ReadAll 512.., bufio 4096)
+SIZES = [1, 7, 63, 64, 65, 200, 511, 512, 513, 1023, 1024, 1025, 1536, 2047, 2048, 2049, 4095, 4096, 4097, 9000]
+BIG_SIZES = [33000, 70000]
+
+
+def fill(marker, size):
+    s = marker * (size // len(marker) + 1)
+    return s[:max(size, len(marker))]      # the marker is always whole: a payload says whose it is
+
+
+def b64(s):
+    return base64.b64encode(s.encode()).decode()
+
+
+class Codec:
+    """builds the requests of the codec family; gob bodies are encoded by the raw gob client of drivers/conc"""
+
+    def __init__(self):
+        self.scns = {}
+        self.gob = []
+        self.meta = {}
+
+    def make(self, sid, ctv, method, accept, size, marker):
+        if sid in self.scns:
+            return sid
+        key, ct, client = ctv
+        cls = next(c for c, vs in CT_VARIANTS.items() if ctv in vs)
+        body = next(b for b, ms in CX_METHODS.items() if method in ms)
+        text = fill(marker, size)
+        lst = ["%s#%d/%s" % (marker, i, fill(marker, size // 3)) for i in range(1 + size % 3)]
+        ol = [marker, "l:" + fill(marker, size // 4)]
+        self.meta[sid] = {"class": cls, "ct": key, "body": body, "method": method, "accept": accept, "size": size, "marker": marker, "client": client}
+        if method == "M8":
+            outcome = {"kind": "result", "value": {"$bytes": b64("r:" + text)}}
+        else:
+            outcome = {"kind": "echo"}
+        if client == "gen":
+            payload = {"bytes": {"$bytes": b64(text)}, "string": text, "list": lst,
+                       "object": {"s": text, "b": {"$bytes": b64("b:" + text)}, "n": size, "l": ol}}[body]
+            if method == "M8":
+                payload = {"id": "i" + marker.strip("~"), "data": {"$bytes": b64(text)}}
+            scn = {"id": sid, "service": "cx", "method": method, "payload": payload, "outcome": outcome}
+            if accept:
+                scn["accept"] = accept
+            self.scns[sid] = scn
+            return sid
+        uri = CX_PATH[method] + ("i" + marker.strip("~") if method == "M8" else "")
+        headers = {}
+        if ct:
+            headers["Content-Type"] = [ct]
+        if accept:
+            headers["Accept"] = [accept]
+        raw = {"method": "POST", "uri": uri, "headers": headers}
+        if cls in ("json", "unsup"):
+            raw["body"] = json.dumps({"bytes": b64(text), "string": text, "list": lst, "object": {"s": text, "b": b64("b:" + text), "n": size, "l": ol}}[body])
+        elif cls == "xml":
+            if body == "object":
+                raw["body"] = "<Obj><s>%s</s><b>%s</b><n>%d</n>%s</Obj>" % (xesc(text), xesc("b:" + text), size, "".join("<l>%s</l>" % xesc(x) for x in ol))
+            else:
+                raw["body"] = "<v>%s</v>" % xesc(lst[0] if body == "list" else text)
+        elif cls == "text":
+            raw["body"] = text if body in ("string", "bytes") else "not text: " + text
+        elif cls == "gob":
+            self.gob.append({"id": sid, "kind": body, "s": text, "l": ol if body == "object" else lst, "n": size})
+        self.scns[sid] = {"id": sid, "raw": raw, "outcome": outcome}
+        return sid
+
+    def encode_gob(self, ctx, binp, d):
+        if not self.gob:
+            return
+        inp, outp = os.path.join(d, "gob-in.ndjson"), os.path.join(d, "gob-out.ndjson")
+        open(inp, "w").write("".join(json.dumps(g) + "\n" for g in self.gob))
+        p = subprocess.run([binp, "-gob", inp, "-out", outp], cwd=d, env=ctx.goenv(), stdout=subprocess.PIPE, stderr=subprocess.PIPE, text=True, timeout=300)
+        if p.returncode != 0:
+            raise core.Infra("raw gob client failed: %s" % p.stderr[-2000:])
+        for l in open(outp):
+            o = json.loads(l)
+            self.scns[o["id"]]["raw"]["bodyB64"] = o["b64"]
+        self.gob = []
+
+
+def pick_variant(rnd, codec, body):
+    ctv = rnd.choice(CT_VARIANTS[codec])
+    method = rnd.choice(CX_METHODS[body])
+    return ctv, method, rnd.choice(CX_ACCEPTS)
+
+
+def is_hold(order):
+    """one process is let through some of its gates, then the other one runs from start to finish, then the first continues"""
+    ps = [s[0] for s in order]
+    for inner in (1, 2):
+        at = [i for i, p in enumerate(ps) if p == inner]
+        if at and at == list(range(at[0], at[0] + len(at))) and 0 < at[0] and at[-1] < len(ps) - 1:
+            return True
+    return False
+
+
 def scrub(x):
     """drop what legitimately differs between two runs of one scenario: error instance identifiers"""
     if isinstance(x, dict):
@@ -58,12 +200,15 @@ def scrub(x):
     return x
 
 
-def signature(events):
+SIG_EVENTS = ("client_call", "wire_req", "mw_lookup", "invoke", "service_return", "wire_resp", "client_return", "errhandler", "server_panic", "client_panic", "wire_req_error")
+
+
+def signature(events, only=None):
     """what must be identical between a request served alone and the same request served among others"""
-    evs = [e for e in events if e.get("ev") in ("client_call", "wire_req", "mw_lookup", "invoke", "service_return", "wire_resp", "client_return")]
-    gob = any(e.get("ev") == "wire_resp" and "gob" in " ".join((e.get("headers") or {}).get("Content-Type", [])) for e in evs)
-    if gob:
-        # a gob body carries the error instance id in binary (also inside the client's "invalid response" text):
+    evs = [e for e in events if e.get("ev") in (only or SIG_EVENTS)]
+    goberr = any(e.get("ev") == "wire_resp" and (e.get("status") or 0) >= 400 and "gob" in " ".join((e.get("headers") or {}).get("Content-Type", [])) for e in evs)
+    if goberr:
+        # a gob error body carries the error instance id in binary (also inside the client's "invalid response" text):
         # compare everything but those bytes
         out = []
         for e in evs:
@@ -77,7 +222,50 @@ def signature(events):
                 e["err"] = err
             out.append(e)
         evs = out
-    return core.canon(scrub(evs))
+    out = []
+    for e in evs:
+        if e.get("ev") == "wire_resp" and (e.get("status") or 0) < 400 and "gob" in " ".join((e.get("headers") or {}).get("Content-Type", [])) and isinstance(e.get("body"), str):
+            # encoding/gob numbers (and names) the types it describes on the wire from a registry of the whole process:
+            # the bytes around the values depend on what the process encoded before.  What must be the request's own
+            # is the values: the markers of the payload, in order (a raw client cannot compare more; generated
+            # clients decode the reply and their result is compared as a value)
+            e = dict(e, body={"gob_values": re.findall(r"~[A-Za-z0-9]+~(?:#\d+/)?|[blr]:(?=~)", e["body"])})
+        out.append(e)
+    return core.canon(scrub(out))
+
+
+def flat(x):
+    """every piece of text inside a recorded value (byte strings decoded), for looking up whose payload it is"""
+    if isinstance(x, dict):
+        if set(x) == {"$bytes"}:
+            try:
+                return base64.b64decode(x["$bytes"]).decode("latin-1")
+            except Exception:
+                return ""
+        return " ".join(flat(v) for v in x.values())
+    if isinstance(x, list):
+        return " ".join(flat(v) for v in x)
+    if isinstance(x, str):
+        out = x
+        for m in re.findall(r"[A-Za-z0-9+/]{12,}={0,2}", x):     # byte strings inside JSON bodies
+            try:
+                out += " " + base64.b64decode(m + "=" * (-len(m) % 4)).decode("latin-1")
+            except Exception:
+                pass
+        return out
+    return ""
+
+
+def whose(events, only, own, others, base_sig):
+    """own index if these events are what the request produces alone, the index of the other request whose
+    payload shows up instead, -1 for something that belongs to nobody we know"""
+    if signature(events, only) == base_sig:
+        return own
+    text = flat([e for e in events if e.get("ev") in only])
+    for q, marker in others:
+        if marker and marker in text:
+            return q
+    return -1
 
 
 def race_reports(prefix):
@@ -86,47 +274,99 @@ def race_reports(prefix):
         txt = open(f, errors="replace").read()
         for block in txt.split("WARNING: DATA RACE")[1:]:
             n += 1
-            m = re.search(r"\n  ([^\n]+)\(\)\n\s+(/[^\s:]+\.go):(\d+)", block)
-            if m:
+            # the first frame inside goa or generated code names the report (a race that never touches goa code,
+            # e.g. inside the harness, is "unknown")
+            top = None
+            for m in re.finditer(r"\n  ([^\n]+)\(\)\n\s+(/[^\s:]+\.go):(\d+)", block):
                 f = m.group(2)
                 for root in REPO_ROOTS:
                     if f.startswith(root + "/"):
-                        f = f[len(root) + 1:]
-                tops.append("%s@%s:%s" % (m.group(1).strip(), f, m.group(3)))
-            else:
-                tops.append("unknown")
+                        top = "%s@%s:%s" % (m.group(1).strip(), f[len(root) + 1:], m.group(3))
+                        break
+                if top or "/gen/" in f:
+                    top = top or "%s@%s:%s" % (m.group(1).strip(), "gen/" + f.split("/gen/", 1)[1], m.group(3))
+                    break
+            if not top:
+                m = re.search(r"\n  ([^\n]+)\(\)\n\s+(/[^\s:]+\.go):(\d+)", block)
+                top = "%s@%s:%s" % (m.group(1).strip(), m.group(2), m.group(3)) if m else "unknown"
+            tops.append(top)
     return n, tops
 
 
-def run_bin(ctx, binp, cwd, args, tag):
+def run_bin(ctx, binp, cwd, args, tag, env=None):
     prefix = os.path.join(cwd, "race-" + tag)
-    env = dict(ctx.goenv(), GORACE="log_path=%s exitcode=0 halt_on_error=0" % prefix)
+    env = dict(ctx.goenv(), GORACE="log_path=%s exitcode=0 halt_on_error=0" % prefix, **(env or {}))
     p = subprocess.run([binp] + args, cwd=cwd, env=env, stdout=subprocess.PIPE, stderr=subprocess.PIPE, text=True, timeout=1500, errors="replace")
     if p.returncode != 0:
         raise core.Infra("runner failed (%d): %s" % (p.returncode, p.stderr[-3000:]))
     return race_reports(prefix)
 
 
+def report_races(ctx, tops, n, phase, what):
+    for t in sorted(set(tops)):
+        ctx.violation("C20/race/" + t.split("@")[-1], "data race reported by the race detector %s (%d reports in total)" % (what, n), {"top_frame": t, "phase": phase})
+
+
+MC_CFG = """SPECIFICATION Spec
+CONSTANTS
+  K = 2
+  Deviations = {}
+  KindSet = {"ok", "invalid", "declared", "undeclared", "plain"}
+  CodecSet = {"json", "text"}
+  BodySet = {"object", "bytes"}
+  SerialSet = {TRUE, FALSE}
+INVARIANTS %s
+CHECK_DEADLOCK FALSE
+"""
+
+
 def run(ctx):
     quick = ctx.quick()
     REPO_ROOTS.append(ctx.repo)
-    ctx.cov["rule"] = ("cases = schedules (order in which K gated request goroutines pass decode/invoke/encode) x request kinds enumerated by TLC from "
-                       "Concurrency.tla, replayed under the race detector, plus load batches; non-trivial = a schedule with at least one preemption between two "
-                       "requests' steps; distinct = canonical JSON of (kinds, order)")
+    rnd = random.Random(ctx.seed)
+    ctx.cov["rule"] = ("cases = schedules (order in which K gated request goroutines pass decode/invoke/encode, free or serial) x requests (kind x content type "
+                       "class x body kind) enumerated by TLC from Concurrency.tla, replayed under the race detector, plus load batches and the codec matrix of "
+                       "the runtime helpers; non-trivial = a schedule with at least one preemption between two requests' steps; distinct = canonical JSON of "
+                       "(kinds, codecs, bodies, serial, order)")
     ctx.assumptions += ["absence of data races is judged by the Go race detector on the executed schedules (external oracle)",
-                        "gates exist only where the caller injects code (decoder/encoder factories, stub service, Auther): finer interleavings are left to the Go scheduler under load"]
+                        "gates exist only where the caller injects code (decoder/encoder factories, stub service, Auther): finer interleavings are left to the Go scheduler under load",
+                        "the reply a request gets when it is served alone is F(payload) of the echo statement; in the serial mode the runner has one P, so that per-P caches are shared by consecutive regions"]
     ctx.mc("mc/MC_Concurrency", consts={"K": 2}, label="MC K=2")
     if not quick:
-        ctx.mc("mc/MC_Concurrency", consts={"K": 3}, label="MC K=3", timeout=1500)
-    ctx.mc_expect_violation("mc/MC_Concurrency", consts={"Deviations": '{"errorencoder.formatter_assigned_per_request"}'}, label="MC dev race")
-    ctx.mc_expect_violation("mc/MC_Concurrency", consts={"Deviations": '{"handler.shared_error_var"}'}, label="MC dev echo")
+        ctx.mc("mc/MC_Concurrency", consts={"K": 3, "CodecSet": '{"json", "text"}', "BodySet": '{"bytes"}', "KindSet": '{"ok", "invalid", "plain"}'}, label="MC K=3", timeout=1500)
+        ctx.mc("mc/MC_Concurrency", consts={"KindSet": '{"ok", "invalid"}', "CodecSet": '{"json", "xml", "gob", "text", "unsup"}', "BodySet": '{"object", "string", "bytes", "list"}'},
+               label="MC K=2 all codecs", timeout=1500)
+    # vacuity: each named deviation is caught by the invariant that speaks about it
+    for dev, inv, serial in (("errorencoder.formatter_assigned_per_request", "NoConflict", "{FALSE}"), ("handler.shared_error_var", "Echo", "{TRUE, FALSE}"),
+                             ("decoder.pooled_buffer_aliased", "Echo", "{TRUE}"), ("decoder.pooled_buffer_aliased", "NoConflict", "{FALSE}")):
+        ctx.mc_expect_violation("mc/MC_Concurrency", cfg_text=MC_CFG % inv, consts={"Deviations": '{"%s"}' % dev, "SerialSet": serial},
+                                label="MC dev %s %s" % (dev.split(".")[0], inv))
     vectors = ctx.gen("mc/MC_Concurrency", "gen/Gen_Concurrency.cfg", consts={"K": 2}, workers=1, label="Gen K=2").vectors
-    if not quick:
+    cvec = ctx.gen("mc/MC_Concurrency", "gen/Gen_Concurrency_Codec.cfg", workers=1, label="Gen K=2 codecs", timeout=1500).vectors
+    for v in vectors:
+        v["fam"] = "kinds"      # the handler kinds family: ok / invalid / declared / undeclared / plain on one JSON method
+    for v in cvec:
+        v["fam"] = "codec"      # the codec family: content type class x body kind, echo methods
+    if quick:
+        # always: every pair of requests with one of them held at each of its gates while the other is served from
+        # start to finish (serial); a seeded sample of everything else (both modes)
+        hold = [v for v in cvec if v["serial"] and is_hold(v["order"])]
+        rest = [v for v in cvec if not (v["serial"] and is_hold(v["order"]))]
+        rnd.shuffle(rest)
+        vectors += hold + rest[:500]
+    else:
+        vectors += cvec
         v3 = ctx.gen("mc/MC_Concurrency", "gen/Gen_Concurrency.cfg", consts={"K": 3}, workers=1, label="Gen K=3", timeout=1500).vectors
-        import random
-        rnd = random.Random(ctx.seed)
+        for v in v3:
+            v["fam"] = "kinds"
         rnd.shuffle(v3)
         vectors += v3[:4000]
+        c3 = ctx.gen("mc/MC_Concurrency", "gen/Gen_Concurrency_Codec.cfg", consts={"K": 3, "CodecSet": '{"json", "text"}', "BodySet": '{"string", "bytes"}', "SerialSet": "{TRUE}"},
+                     workers=1, label="Gen K=3 codecs", timeout=1500).vectors
+        for v in c3:
+            v["fam"] = "codec"
+        rnd.shuffle(c3)
+        vectors += c3[:3000]
     # real code
     d = design()
     pl = hg.Pipeline(ctx, "gen-conc")
@@ -137,90 +377,177 @@ def run(ctx):
     if 0 not in bins:
         raise core.Infra("race build failed: %s" % pl.failed)
     binp, cwd = bins[0], os.path.join(pl.root, "d0")
-    scns = scenarios()
-    open(os.path.join(cwd, "scn.ndjson"), "w").write("".join(json.dumps(s) + "\n" for s in scns))
-    # 1. sequential baseline
+    cb = ctx.gobuild("drivers/conc", race=True)
+    # schedules -> scenarios
+    cx = Codec()
+    scns = {s["id"]: s for s in scenarios()}
+    scheds = []
+    pos_size = {1: 700, 2: 90, 3: 1500}
+    for n, v in enumerate(vectors):
+        kinds, procs = v["kinds"], []
+        for i, k in enumerate(kinds):
+            codec, body = v["codecs"][i], v["bodies"][i]
+            if v["fam"] == "kinds":
+                procs.append("%s#%d" % (k, i + 1))     # the handler kinds family: generated client, validated object payload
+                continue
+            ctv, method, accept = pick_variant(rnd, codec, body)
+            size = pos_size[i + 1] + rnd.choice(SIZES[:8])
+            sid = "c.%s.%s.%s.%d#%d" % (ctv[0], method, CX_ACCEPTS.index(accept), size, i + 1)
+            cx.make(sid, ctv, method, accept, size, "~p%dv%d~" % (i + 1, len(cx.scns)))
+            procs.append(sid)
+        scheds.append({"id": "s%d" % n, "procs": procs, "order": v["order"], "serial": bool(v["serial"])})
+    cx.encode_gob(ctx, cb, cwd)
+    scns.update(cx.scns)
+    open(os.path.join(cwd, "scn.ndjson"), "w").write("".join(json.dumps(s) + "\n" for s in scns.values()))
+    # 1. sequential baseline: every request served alone
     run_bin(ctx, binp, cwd, ["-mwlookup", "-in", "scn.ndjson", "-out", "base.ndjson"], "base")
-    base = {}
+    base, base_ev = {}, {}
     for l in open(os.path.join(cwd, "base.ndjson")):
         o = json.loads(l)
         base[o["id"]] = signature(o["events"])
-    # 2. schedule replay
-    scheds = []
-    for n, v in enumerate(vectors):
-        kinds = v["kinds"]
-        scheds.append({"id": "s%d" % n, "procs": ["%s#%d" % (k, i + 1) for i, k in enumerate(kinds)], "order": v["order"]})
-    open(os.path.join(cwd, "sched.ndjson"), "w").write("".join(json.dumps(s) + "\n" for s in scheds))
-    nrace, tops = run_bin(ctx, binp, cwd, ["-mwlookup", "-in", "scn.ndjson", "-out", "sched-out.ndjson", "-schedules", "sched.ndjson"], "sched")
-    ctx.log("replayed %d schedules under -race: %d race report(s)" % (len(scheds), nrace))
+        base_ev[o["id"]] = o["events"]
+    # the requests must be what the specification takes them for (a decode failure exactly where it says so): this is
+    # about the scenarios, not about goa
+    for sid, m in cx.meta.items():
+        invoked = any(e.get("ev") == "invoke" for e in base_ev[sid])
+        fails = m["class"] == "unsup" or (m["class"] == "text" and m["body"] in ("object", "list"))
+        if invoked == fails:
+            raise core.Infra("codec scenario %s (%s) is %sinvoked when served alone: the request classes of Concurrency.tla do not describe it" % (sid, m, "" if invoked else "not "))
+        if invoked and m["marker"] not in flat([e for e in base_ev[sid] if e.get("ev") == "invoke"]):
+            raise core.Infra("codec scenario %s: the payload delivered alone does not carry the marker of the request" % sid)
+    # 2. schedule replay: free schedules on all Ps, serial schedules on one P
+    free = [s for s in scheds if not s["serial"]]
+    ser = [s for s in scheds if s["serial"]]
+    open(os.path.join(cwd, "sched-free.ndjson"), "w").write("".join(json.dumps(s) + "\n" for s in free))
+    open(os.path.join(cwd, "sched-serial.ndjson"), "w").write("".join(json.dumps(s) + "\n" for s in ser))
+    nrace, tops = run_bin(ctx, binp, cwd, ["-mwlookup", "-in", "scn.ndjson", "-out", "sched-free-out.ndjson", "-schedules", "sched-free.ndjson"], "sched")
+    nr2, tops_s = run_bin(ctx, binp, cwd, ["-mwlookup", "-in", "scn.ndjson", "-out", "sched-serial-out.ndjson", "-schedules", "sched-serial.ndjson"], "sched-serial",
+                          env={"GOMAXPROCS": "1"})
+    nrace, tops = nrace + nr2, tops + tops_s
+    ctx.log("replayed %d free and %d serial schedules under -race: %d race report(s)" % (len(free), len(ser), nrace))
     trace, nontrivial, echo_bad, mism = [], set(), 0, 0
     byid = {s["id"]: s for s in scheds}
-    for l in open(os.path.join(cwd, "sched-out.ndjson")):
-        o = json.loads(l)
+    cells = {}
+    outs = [json.loads(l) for f in ("sched-free-out.ndjson", "sched-serial-out.ndjson") for l in open(os.path.join(cwd, f))]
+    if len(outs) != len(scheds):
+        raise core.Infra("%d schedules replayed, %d expected" % (len(outs), len(scheds)))
+    for o in outs:
         s = byid[o["schedule"]]
         v = vectors[int(o["schedule"][1:])]
         ctx.cov["evaluations"] += 1
         order = v["order"]
+        if o.get("stuck"):
+            raise core.Infra("schedule %s: %s (a request goroutine did not show up within the controller's patience: machinery, not a verdict)" % (s, o["stuck"]))
+        if any("never reached" in m for m in o["mismatch"]):
+            raise core.Infra("schedule %s: %s (timeout: machinery, not a verdict)" % (s, o["mismatch"]))
         if any(order[i][0] != order[i + 1][0] for i in range(len(order) - 1)):
-            nontrivial.add(core.canon([v["kinds"], order]))
-        echo = True
-        for pr in o["procs"]:
-            if signature(pr["events"]) != base[pr["id"]]:
-                echo = False
+            nontrivial.add(core.canon([v["kinds"], v["codecs"], v["bodies"], v["serial"], order]))
+        seen, frm = [], []
+        markers = [(i + 1, (cx.meta.get(pid) or {}).get("marker")) for i, pid in enumerate(s["procs"])]
+        for i, pr in enumerate(o["procs"]):
+            own, others = i + 1, [m for m in markers if m[0] != i + 1]
+            bev = base_ev[pr["id"]]
+            if any(e.get("ev") == "invoke" for e in bev) or any(e.get("ev") == "invoke" for e in pr["events"]):
+                seen.append(whose(pr["events"], ("invoke",), own, others, signature(bev, ("invoke",))))
+            else:
+                seen.append(0)
+            rest = tuple(e for e in SIG_EVENTS if e != "invoke")
+            frm.append(whose(pr["events"], rest, own, others, signature(bev, rest)))
+            m = cx.meta.get(pr["id"])
+            cell = "%s/%s" % (m["ct"], m["body"]) if m else "gen/object"
+            cells[cell] = cells.get(cell, 0) + 1
+            if seen[-1] not in (0, own) or frm[-1] != own:
                 echo_bad += 1
-                ctx.violation("C20/echo/" + pr["id"].split("#")[0], "response of %s under schedule %s differs from the response to the same request in isolation" % (pr["id"], s["order"]),
-                              {"schedule": s, "events": pr["events"], "kinds": v["kinds"]})
+                what = "the payload delivered to its handler" if seen[-1] not in (0, own) else "the reply"
+                src = seen[-1] if seen[-1] not in (0, own) else frm[-1]
+                ctx.violation("C20/echo/" + (("%s/%s" % (m["class"], m["body"])) if m else pr["id"].split("#")[0]),
+                              "%s of request %s under the %s schedule %s is not the one the same request gets when served alone: %s"
+                              % (what, pr["id"], "serial" if s["serial"] else "free", s["order"],
+                                 "it carries the payload of request %s" % s["procs"][src - 1] if src > 0 else "it belongs to no request of the schedule"),
+                              {"schedule": s, "request": scns[pr["id"]] if len(json.dumps(scns[pr["id"]])) < 4000 else pr["id"], "events": pr["events"][:12], "alone": base_ev[pr["id"]][:12], "kinds": v["kinds"]})
         if o["mismatch"]:
             mism += 1
             ctx.violation("C20/schedule-not-followed", "the real handler did not reach the gates in the order the model allows: %s" % o["mismatch"][:3], {"schedule": s, "mismatch": o["mismatch"]})
-        trace.append({"ev": "sched", "kinds": v["kinds"]})
+        trace.append({"ev": "sched", "kinds": v["kinds"], "codecs": v["codecs"], "bodies": v["bodies"], "serial": bool(v["serial"])})
         for p, g in order:
             trace.append({"ev": "pass", "p": p, "gate": g})
-        trace.append({"ev": "end", "races": 0, "echo": echo})
-    for t in sorted(set(tops)):
-        ctx.violation("C20/race/" + t.split("@")[-1], "data race reported by the race detector during schedule replay (%d reports in total)" % nrace, {"top_frame": t, "phase": "schedule replay"})
+        trace.append({"ev": "end", "races": 0, "seen": seen, "from": frm})
+    report_races(ctx, tops, nrace, "schedule replay", "during schedule replay")
     # races are per run, not per schedule: the trace carries them on the last schedule
     if trace:
         trace[-1]["races"] = nrace
     tp = os.path.join(ctx.subdir("trace"), "trace.ndjson")
     open(tp, "w").write("".join(json.dumps(t) + "\n" for t in trace))
-    ok, hwm, r = ctx.trace_validate("trace/Trace_Concurrency", "trace/Trace_Concurrency.cfg", tp)
+    ok, hwm, r = ctx.trace_validate("trace/Trace_Concurrency", "trace/Trace_Concurrency.cfg", tp, timeout=1500)
     ctx.cov["traces_validated_against_impl"] += len(scheds)
     if not ok and not ctx.violations:
         bad = trace[hwm - 1] if hwm else None
         ctx.violation("C20/trace-rejected", "Trace_Concurrency rejected line %s: %s" % (hwm, bad), {"line": bad})
+    if ok and (echo_bad or nrace):
+        raise core.Infra("Trace_Concurrency accepted a trace with %d foreign payloads/replies and %d race reports" % (echo_bad, nrace))
     ctx.sample({"schedule": scheds[len(scheds) // 2], "kinds": vectors[len(scheds) // 2]["kinds"]})
-    # 3. load
-    par, rounds = (32, 40) if quick else (64, 400)
-    nrace2, tops2 = run_bin(ctx, binp, cwd, ["-mwlookup", "-in", "scn.ndjson", "-out", "load.ndjson", "-parallel", str(par), "-rounds", str(rounds)], "load")
-    nload = 0
+    ctx.sample({"schedule": ser[len(ser) // 2]})
+    # 3. load: the handler kinds family and a stream of codec requests, every one with a payload of its own
+    lx = Codec()
+    nreq = 1200 if quick else 8000
+    variants = [(ctv, m, a) for c in CT_VARIANTS for ctv in CT_VARIANTS[c] for b in CX_METHODS for m in CX_METHODS[b] for a in CX_ACCEPTS]
+    rnd.shuffle(variants)
+    for i in range(nreq):
+        ctv, m, a = variants[i % len(variants)]
+        size = rnd.choice(BIG_SIZES) if i % 97 == 96 else rnd.choice(SIZES)
+        lx.make("L%d" % i, ctv, m, a, size, "~L%d~" % i)
+    lx.encode_gob(ctx, cb, cwd)
+    lscn = scenarios() + list(lx.scns.values())
+    rnd.shuffle(lscn)
+    open(os.path.join(cwd, "load-scn.ndjson"), "w").write("".join(json.dumps(s) + "\n" for s in lscn))
+    run_bin(ctx, binp, cwd, ["-mwlookup", "-in", "load-scn.ndjson", "-out", "load-base.ndjson"], "load-base")
+    lbase = {}
+    for l in open(os.path.join(cwd, "load-base.ndjson")):
+        o = json.loads(l)
+        lbase[o["id"]] = signature(o["events"])
+    par, rounds = (32, 2) if quick else (64, 6)
+    nrace2, tops2 = run_bin(ctx, binp, cwd, ["-mwlookup", "-in", "load-scn.ndjson", "-out", "load.ndjson", "-parallel", str(par), "-rounds", str(rounds)], "load")
+    nload, lcells = 0, {}
     for l in open(os.path.join(cwd, "load.ndjson")):
         o = json.loads(l)
         nload += 1
-        if signature(o["events"]) != base[o["id"]]:
-            ctx.violation("C20/echo-under-load/" + o["id"].split("#")[0], "response of %s under load (%d goroutines) differs from the response in isolation" % (o["id"], par), {"events": o["events"]})
+        m = lx.meta.get(o["id"])
+        cell = "%s/%s" % (m["ct"], m["body"]) if m else "gen/object"
+        lcells[cell] = lcells.get(cell, 0) + 1
+        if signature(o["events"]) != lbase[o["id"]]:
+            ctx.violation("C20/echo-under-load/" + (("%s/%s" % (m["class"], m["body"])) if m else o["id"].split("#")[0]),
+                          "what request %s gets under load (%d goroutines) differs from what it gets when served alone" % (o["id"], par),
+                          {"request": m or o["id"], "events": o["events"][:12]})
+    if nload != len(lscn) * rounds:
+        raise core.Infra("load: %d of %d requests came back" % (nload, len(lscn) * rounds))
     ctx.cov["evaluations"] += nload
-    ctx.log("load: %d requests from %d goroutines: %d race report(s)" % (nload, par, nrace2))
-    for t in sorted(set(tops2)):
-        ctx.violation("C20/race/" + t.split("@")[-1], "data race reported by the race detector under load (%d reports)" % nrace2, {"top_frame": t, "phase": "load"})
-    # 4. runtime helpers used directly
-    cb = ctx.gobuild("drivers/conc", race=True)
+    ctx.log("load: %d requests (%d distinct, %d content type x body cells) from %d goroutines: %d race report(s)" % (nload, len(lscn), len(lcells), par, nrace2))
+    report_races(ctx, tops2, nrace2, "load", "under load")
+    # 4. runtime helpers used directly (codec matrix included)
     dd = ctx.subdir("conc")
     prefix = os.path.join(dd, "race-conc")
     env = dict(ctx.goenv(), GORACE="log_path=%s exitcode=0 halt_on_error=0" % prefix)
-    p = subprocess.run([cb, "-out", os.path.join(dd, "out.ndjson"), "-goroutines", "16" if quick else "64", "-iters", "150" if quick else "1500"],
+    p = subprocess.run([cb, "-out", os.path.join(dd, "out.ndjson"), "-seed", str(ctx.seed), "-goroutines", "16" if quick else "64", "-iters", "150" if quick else "1500",
+                        "-codec", "150" if quick else "1200"],
                        cwd=dd, env=env, stdout=subprocess.PIPE, stderr=subprocess.PIPE, text=True, timeout=1500)
     if p.returncode != 0:
         raise core.Infra("conc driver failed: %s" % p.stderr[-2000:])
     nrace3, tops3 = race_reports(prefix)
+    hcells = {}
     for l in open(os.path.join(dd, "out.ndjson")):
         o = json.loads(l)
         ctx.cov["evaluations"] += o["ops"]
+        if o["area"].startswith("codec/"):
+            hcells[o["area"][6:]] = o["ops"]
+            if not o["ops"]:
+                raise core.Infra("codec matrix: cell %s was never exercised" % o["area"])
         if o["echo_failures"]:
             ctx.violation("C20/helpers/echo/" + o["area"], "%d of %d concurrent calls got an answer not computed from their own input" % (o["echo_failures"], o["ops"]), o)
-        ctx.sample(o, limit=9)
-    for t in sorted(set(tops3)):
-        ctx.violation("C20/race/" + t.split("@")[-1], "data race reported by the race detector in direct concurrent use of the runtime helpers (%d reports)" % nrace3, {"top_frame": t, "phase": "helpers"})
+        if not o["area"].startswith("codec/") or o["area"] in ("codec/text-plain/bytes", "codec/gob/object"):
+            ctx.sample(o, limit=12)
+    report_races(ctx, tops3, nrace3, "helpers", "in direct concurrent use of the runtime helpers")
+    ctx.cov["codec_matrix"] = {"rule": "requests per request content type x body kind (each cell with every response negotiation: Accept json/xml/gob/text/parameterised/none and designed +json/+xml/text types)",
+                               "schedules": cells, "load": lcells, "helpers": hcells}
     # 5. goa.SkipResponseWriter (adapter shared by the handler goroutine and a writer goroutine)
     ctx.mc("mc/MC_SkipWriter", label="MC SkipWriter (safety + NoLeak)")
     ctx.mc_expect_violation("mc/MC_SkipWriter", consts={"Deviations": '{"skipwriter.writer_never_unblocked"}'}, label="MC dev SkipWriter")
@@ -243,8 +570,7 @@ def run(ctx):
         bad = lines2[hwm - 1] if hwm else None
         ctx.violation("C20/skipwriter/trace-rejected/%s" % (bad or {}).get("ev"), "Trace_SkipWriter rejected line %s: %s" % (hwm, bad),
                       {"line": bad, "context": lines2[max(0, (hwm or 1) - 8):(hwm or 1)]})
-    for t in sorted(set(tops4)):
-        ctx.violation("C20/race/" + t.split("@")[-1], "data race reported by the race detector in SkipResponseWriter use (%d reports)" % nrace4, {"top_frame": t, "phase": "skipwriter"})
+    report_races(ctx, tops4, nrace4, "skipwriter", "in SkipResponseWriter use")
     ctx.cov["race_reports"] = {"schedules": nrace, "load": nrace2, "helpers": nrace3, "skipwriter": nrace4}
     ctx.cov["distinct_nontrivial"] = len(nontrivial)
     if ctx.selftest or not quick:
@@ -252,18 +578,24 @@ def run(ctx):
 
 
 def selftest(ctx, trace):
-    """a trace claiming one race report, or passing the encode gate before the decode gate, must be rejected"""
+    """a trace claiming one race report, or a reply computed from the other request, must be rejected"""
     ls = [dict(t) for t in trace[:40]]
     end = next(i for i, t in enumerate(ls) if t["ev"] == "end")
-    ls[end]["races"] = 1
-    d = ctx.subdir("selftest")
-    p = os.path.join(d, "trace.ndjson")
-    open(p, "w").write("".join(json.dumps(t) + "\n" for t in ls))
-    ok, hwm, _ = ctx.trace_validate("trace/Trace_Concurrency", "trace/Trace_Concurrency.cfg", p, label="selftest")
-    res = {"corrupted_line": end + 1, "rejected_at": hwm, "ok": (not ok and hwm == end + 1)}
-    ctx.cov.setdefault("trace_selftests", []).append(res)
-    if not res["ok"]:
-        raise core.Infra("trace self-test failed: %s" % res)
+    ls = ls[:end + 1]
+    for what in ("races", "from", "seen"):
+        cs = [dict(t) for t in ls]
+        if what == "races":
+            cs[end]["races"] = 1
+        else:
+            cs[end][what] = [2] + list(cs[end][what][1:])
+        d = ctx.subdir("selftest-" + what)
+        p = os.path.join(d, "trace.ndjson")
+        open(p, "w").write("".join(json.dumps(t) + "\n" for t in cs))
+        ok, hwm, _ = ctx.trace_validate("trace/Trace_Concurrency", "trace/Trace_Concurrency.cfg", p, label="selftest-" + what)
+        res = {"corrupted": what, "corrupted_line": end + 1, "rejected_at": hwm, "ok": (not ok and hwm == end + 1)}
+        ctx.cov.setdefault("trace_selftests", []).append(res)
+        if not res["ok"]:
+            raise core.Infra("trace self-test failed: %s" % res)
 
 
 def replay(ctx, rp):
